@@ -6,6 +6,7 @@ import random
 import re
 
 import attrs
+from typing import Dict, List
 
 from cattrs import Converter
 from cattrs.strategies import configure_tagged_union, include_subclasses
@@ -198,6 +199,7 @@ def check_c14(v: Verdict, t1_summary, n_trees):
     c14_overrides_battery(v, hist)
     c14_nested_battery(v, hist)
     c14_literal_battery(v, hist)
+    c14_collection_member_battery(v, hist)
     # the model's acceptance is evaluated for the tree's own order; the real union is built from a set (hash order),
     # and acceptance can depend on the order (finding F23 of C12): such mismatches are counted, not compared
     texts, metas = [], []
@@ -482,3 +484,60 @@ def c14_literal_battery(v: Verdict, hist):
                             if type(back) is not X or back != inst:
                                 v.violation("base-typed round trip lost the exact subclass or its attributes (Literal-discriminated hierarchy)", {**rp, "payload": payload, "back": repr(back)})
     hist["literal_battery_pairs"] = n
+
+
+def c14_collection_member_battery(v: Verdict, hist):
+    """systematic: a hierarchy whose members hold COLLECTIONS of the hierarchy (Group(Base): members: List[Base]; Table(Base): rows:
+    Dict[str, Base]; Pair(Base): both: Tuple[Base, Base]) -- the collection hooks are generated (and cached by the converter) with the
+    element hook of Base inlined, before or after include_subclasses installs its hooks.  Strategy automatic / tagged union x the
+    converter was used before (nothing / unstructure of a Group / of List[Base] / structure of a Table payload) x forbid_extra_keys x
+    validation mode: every instance round-trips through every ancestor K to the exact classes, nested members included."""
+    def mk():
+        Base = attrs.make_class("CBase", {"a": attrs.field(type=int)})
+        Leaf = attrs.make_class("CLeaf", {"b": attrs.field(type=int)}, bases=(Base,))
+        Group = attrs.make_class("CGroup", {"members": attrs.field(type=List[Base])}, bases=(Base,))
+        Table = attrs.make_class("CTable", {"rows": attrs.field(type=Dict[str, Base])}, bases=(Base,))
+        return Base, Leaf, Group, Table
+    n = 0
+    for strategy in ("auto", "tagged"):
+        for warm in ("nothing", "unstructure(Group)", "unstructure(List[Base])", "structure(Table payload)"):
+            for forbid in (False, True):
+                for dv in (True, False):
+                    Base, Leaf, Group, Table = mk()
+                    conv = Converter(forbid_extra_keys=forbid, detailed_validation=dv)
+                    try:
+                        if warm == "unstructure(Group)":
+                            conv.unstructure(Group(1, [Base(2)]))
+                        elif warm == "unstructure(List[Base])":
+                            conv.unstructure([Base(2)], unstructure_as=List[Base])
+                        elif warm == "structure(Table payload)":
+                            conv.structure({"a": 1, "rows": {"k": {"a": 2}}}, Table)
+                    except Exception:      # noqa
+                        pass
+                    gc.collect()
+                    desc = {"lane": "SUB/C14 collection-member battery", "classes": "CBase(a); CLeaf(CBase)(b); CGroup(CBase)(members: List[CBase]); CTable(CBase)(rows: Dict[str, CBase])",
+                            "strategy": strategy, "before_the_strategy": warm, "forbid_extra_keys": forbid, "detailed_validation": dv}
+                    try:
+                        include_subclasses(Base, conv, **({"union_strategy": configure_tagged_union} if strategy == "tagged" else {}))
+                    except Exception:      # noqa
+                        continue
+                    insts = [Group(1, [Leaf(2, 3), Base(4), Group(5, [Leaf(6, 7)])]), Table(1, {"x": Leaf(2, 3), "y": Base(4)}), Leaf(8, 9)]
+                    for inst in insts:
+                        for K in (Base, type(inst)):
+                            n += 1
+                            rp = {**desc, "structure_as": K.__name__, "instance": repr(inst)}
+                            v.count(repr(rp), True)
+                            try:
+                                payload = conv.unstructure(inst, unstructure_as=K)
+                                back = conv.structure(payload, K)
+                            except Exception as e:      # noqa
+                                leaf = not any(c is not K and issubclass(c, K) for c in (Base, Leaf, Group, Table))
+                                if strategy == "tagged" and forbid and "ForbiddenExtraKeysError" in repr(e) + repr(getattr(e, "exceptions", "")) and leaf:
+                                    v.finding("F16", "leaf class under the tagged-union strategy + forbid_extra_keys rejects the tag its unstructure hook adds", {**rp, "error": repr(e)})
+                                else:
+                                    v.violation("base-typed round trip raised after include_subclasses (members holding collections of the hierarchy)", {**rp, "error": repr(e)[:300]})
+                                continue
+                            if type(back) is not type(inst) or back != inst or repr(back) != repr(inst):
+                                v.violation("base-typed round trip lost the exact subclass or its attributes (members holding collections of the hierarchy)",
+                                            {**rp, "payload": repr(payload)[:300], "back": repr(back)[:300]})
+    hist["collection_member_pairs"] = n
